@@ -24,10 +24,28 @@ package utils
 //@   props C20
 //@   modifies nothing
 
+// Rand: rejection sampling over crypto/rand (the source itself is external: any bytes may come back)
+//@ extern crypto/rand.Read
+//@   ensures result0 == len(b) && result1 == nil
+//@   modifies b[:]
+//@ extern (r encoding/binary.bigEndian) Uint32
+//@   requires len(b) >= 4
+//@   modifies nothing
+
+//@ func (r *Rand) Int31
+//@   props C16 C05
+//@   arith bv
+//@   ensures [non-negative] 0 <= result
+//@   modifies r.*
+
 //@ func (r *Rand) Int31n
-//@   trusted rejection sampling over crypto/rand with bit masks; result range stated from the documented behaviour (math/rand.Int31n)
+//@   props C16 C05
+//@   arith bv
 //@   requires n > 0
-//@   ensures 0 <= result && result < n
+//@   ensures [range] 0 <= result && result < n
+//@   modifies r.*
+//@ loop (r *Rand) Int31n #0
+//@   invariant 0 <= v
 //@   modifies r.*
 
 //@ func (r *RTTStats) PTO
